@@ -3,6 +3,7 @@
 // @also C05 C09
 // @engine B
 // @entry vfh_C13_getters
+// @shared_state_watch
 // @tier Q
 // @opts max_steps=30000000
 // @reach c_api.done
@@ -14,6 +15,7 @@
 // @id C13.c_api_setters
 // @engine B
 // @entry vfh_C13_setters
+// @shared_state_watch
 // @tier Q
 // @opts max_steps=30000000
 // @reach c_api.done
